@@ -20,10 +20,10 @@ impl KeyRing {
     }
 }
 
-/// Stake distributions: equal, small integers, one dominant validator, exactly on / one unit
+/// Stake distributions: equal, small integers, one dominant validator, total just below 2^63, exactly on / one unit
 /// around the 20/40/60/80 % thresholds, lamport-scale values (beyond 2^53).
 pub fn stake_family(rng: &mut Rng) -> (Vec<u64>, &'static str) {
-    match rng.below(9) {
+    match rng.below(10) {
         0 => { let n = *rng.pick(&[4usize, 5, 6, 7, 10, 11]); (vec![1; n], "equal") }
         1 => { let n = rng.range(3, 9) as usize; ((0..n).map(|_| rng.range(1, 5)).collect(), "small-ints") }
         2 => { let n = rng.range(3, 7) as usize; let mut v: Vec<u64> = (0..n).map(|_| rng.range(1, 10)).collect(); let s: u64 = v.iter().sum(); v[0] = s * rng.range(1, 4); (v, "dominant") }
@@ -31,6 +31,9 @@ pub fn stake_family(rng: &mut Rng) -> (Vec<u64>, &'static str) {
         4 => { let d = rng.range(0, 2); (vec![19 + d, 21 - d, 20, 20, 20], "fifths-plus-minus-one") }
         5 => { let x = *rng.pick(&[59u64, 60, 61, 79, 80, 81, 39, 40, 41]); (vec![x, 100 - x - 10, 5, 5], "single-on-threshold") }
         6 => { let base = 100_000_000_000_000_000u64 / 5; let d = rng.range(0, 2); (vec![base - 1 + d, base + 1 - d, base, base, base], "lamport-scale-fifths") }
+        8 => { // total stake just below 2^63: threshold products only fit in 128 bits (twice the total still fits in
+               // 64 bits: the certificate constructors add up the stake of BOTH halves for the declared stake)
+               let n = rng.range(4, 6); let base = (1u64 << 63) / n - 7; ((0..n).map(|_| base - rng.below(3)).collect(), "total-near-2^63") }
         7 => { let n = rng.range(5, 12) as usize; let mut v = vec![10u64; n]; let i = rng.below(n as u64) as usize; v[i] = if rng.chance(1, 2) { 9 } else { 11 }; (v, "near-equal") }
         _ => { let n = rng.range(2, 4) as usize; ((0..n).map(|_| rng.range(1, 3)).collect(), "tiny") }
     }
@@ -291,6 +294,15 @@ pub fn c06_scenario(rng: &mut Rng, stakes: &[u64], own: u64) -> Vec<Op> {
                g.extend(q[k..].iter().map(|&v| Op::Vote { slot: parent.0, kind: VK::NotarFb, hash: parent.1, signer: v }));
                groups.push(g); }
     }
+    // a further certificate of another kind for the parent (e.g. late notar votes lifting a notarized parent to
+    // fast-finalized): the parent is announced as certified a second time
+    if rng.chance(1, 4) {
+        match rng.below(3) {
+            0 => { let q = quorum_subset(rng, stakes, 4, 5); groups.push(vec![Op::Cert { slot: parent.0, kind: CK::FastFinal, hash: parent.1, s1: q, s2: vec![] }]); }
+            1 => { let q = quorum_subset(rng, stakes, 3, 5); groups.push(vec![Op::Cert { slot: parent.0, kind: CK::Notar, hash: parent.1, s1: q, s2: vec![] }]); }
+            _ => { let q = quorum_subset(rng, stakes, 3, 5); let k = rng.range(0, q.len() as u64) as usize; groups.push(vec![Op::Cert { slot: parent.0, kind: CK::NotarFb, hash: parent.1, s1: q[..k].to_vec(), s2: q[k..].to_vec() }]); }
+        }
+    }
     // block registrations (some blocks stay unknown -> repair request instead of the signal)
     for b in &blocks {
         if rng.chance(5, 6) {
@@ -345,7 +357,7 @@ pub fn gen_c06(seed: u64, tier: Tier) -> CaseSet {
         tally.add(&outs);
         cases.push(txt);
     }
-    stats.rule = "one slot with 1-3 competing blocks: parent certificate (by notar votes, by mixed notar/notar-fallback votes, or received Notar / NotarFallback / FastFinal certificate, or absent), block registrations (some missing, some with an uncertified parent), other validators' notar/skip/fallback votes and the own vote, shuffled as groups so that each can arrive last; non-trivial = at least one SafeToNotar/SafeToSkip raised; distinct by full trace".into();
+    stats.rule = "one slot with 1-3 competing blocks: parent certificate (by notar votes, by mixed notar/notar-fallback votes, or received Notar / NotarFallback / FastFinal certificate, or absent; in a quarter of the cases a further certificate of another kind for the same parent), block registrations (some missing, some with an uncertified parent), other validators' notar/skip/fallback votes and the own vote, shuffled as groups so that each can arrive last; non-trivial = at least one SafeToNotar/SafeToSkip raised; distinct by full trace".into();
     tally.into_stats(&mut stats);
     finish("pool", 6, cases, descr, sigs, stats)
 }
@@ -387,6 +399,9 @@ pub fn world(rng: &mut Rng, stakes: &[u64], own: u64, with_waits: bool, with_old
     // finalized chain blocks
     let mut groups: Vec<Vec<Op>> = Vec::new();
     let mut highest_final = 0u64;
+    // chain slots that are not finalized in the ground truth AND carry a skip certificate or a certified sibling:
+    // they must never become finalized (no late notar votes there)
+    let mut never_final: Vec<u64> = Vec::new();
     let as_votes = |rng: &mut Rng, slot: u64, kind: VK, hash: u64, q: &[u64]| -> Vec<Op> {
         let mut q = q.to_vec(); rng.shuffle(&mut q);
         q.iter().map(|&v| Op::Vote { slot, kind, hash, signer: v }).collect()
@@ -415,7 +430,7 @@ pub fn world(rng: &mut Rng, stakes: &[u64], own: u64, with_waits: bool, with_old
                     if rng.chance(2, 3) { groups.push(vec![Op::Cert { slot: s, kind: CK::Notar, hash: h, s1: q, s2: vec![] }]); }
                     else { let k = rng.range(0, q.len() as u64) as usize; groups.push(vec![Op::Cert { slot: s, kind: CK::NotarFb, hash: h, s1: q[..k].to_vec(), s2: q[k..].to_vec() }]); }
                     // a notarized, not finalized slot may additionally be skip-certified
-                    if rng.chance(1, 6) { let q = quorum_subset(rng, stakes, 3, 5); groups.push(vec![Op::Cert { slot: s, kind: CK::Skip, hash: 0, s1: vec![], s2: q }]); }
+                    if rng.chance(1, 6) { let q = quorum_subset(rng, stakes, 3, 5); groups.push(vec![Op::Cert { slot: s, kind: CK::Skip, hash: 0, s1: vec![], s2: q }]); never_final.push(s); }
                 }
                 if rng.chance(5, 6) { groups.push(vec![Op::Block { b: (s, h), p: parent_of(&chain, s) }]); }
                 // a sibling of the chain block (an equivocating leader's other block): registered with the same or an
@@ -429,6 +444,7 @@ pub fn world(rng: &mut Rng, stakes: &[u64], own: u64, with_waits: bool, with_old
                         let q = quorum_subset(rng, stakes, 3, 5);
                         let k = rng.range(0, q.len() as u64) as usize;
                         groups.push(vec![Op::Cert { slot: s, kind: CK::NotarFb, hash: h2, s1: q[..k].to_vec(), s2: q[k..].to_vec() }]);
+                        if fin >= 5 { never_final.push(s); }
                     }
                 }
             }
@@ -458,14 +474,17 @@ pub fn world(rng: &mut Rng, stakes: &[u64], own: u64, with_waits: bool, with_old
     let _ = highest_final;
     if with_waits {
         let mut w = 0;
-        while w <= nslots + SPW { if rng.chance(1, 3) { groups.push(vec![Op::Wait(w)]); } w += SPW; }
+        while w <= nslots + SPW { if rng.chance(1, 3) { groups.push(vec![if rng.chance(1, 4) { Op::WaitAbandon(w) } else { Op::Wait(w) }]); } w += SPW; }
     }
     if with_old_votes {
         // late votes for arbitrary (possibly already decided) slots
         for _ in 0..rng.range(1, 6) {
             // (only votes consistent with the slot's fate, so that a heavy validator's late vote cannot
-            //  create a certificate that contradicts the ground truth)
+            //  create a certificate that contradicts the ground truth; in particular no late notar vote for a
+            //  non-finalized block whose slot is also skip-certified or has a certified sibling: with a dominant
+            //  validator that single vote would fast-finalize it, which needs more than 20 % Byzantine stake)
             let s = rng.range(1, nslots);
+            if never_final.contains(&s) { continue; }
             let (k, h) = match chain[s as usize] { Some(h) => (VK::Notar, h), None => (*rng.pick(&[VK::Skip, VK::SkipFb]), 0) };
             groups.push(vec![Op::Vote { slot: s, kind: k, hash: h, signer: rng.below(n) }]);
         }
@@ -568,7 +587,7 @@ fn gen_world(seed: u64, tier: Tier, sel: u64, salt: u64, nq: usize, nt: usize, w
     finish("pool", sel, cases, descr, sigs, stats)
 }
 
-const WORLD_RULE: &str = "consistent multi-window histories (4-14 slots): a ground-truth chain fixes each slot's fate (chain block or skipped, incl. whole skipped windows); chain blocks are fast-finalized, slow-finalized (notar + final), only notarized / notar-fallback certified (sometimes additionally skip-certified) or uncertified; skipped slots get skip certificates and sometimes a competing certified block; chain slots sometimes get a sibling block (registered, sometimes notar-fallback certified); block-parent registrations for most blocks; every certificate is delivered either as a received certificate or as the votes forming it; all groups shuffled (final before notar, children before parents, gaps, certificates for already decided slots), a third of the histories additionally in adversarial orders (all skips first then old blocks from the highest slot down; strictly descending; strictly ascending)";
+const WORLD_RULE: &str = "consistent multi-window histories (4-14 slots): a ground-truth chain fixes each slot's fate (chain block or skipped, incl. whole skipped windows); chain blocks are fast-finalized, slow-finalized (notar + final), only notarized / notar-fallback certified (sometimes additionally skip-certified) or uncertified; skipped slots get skip certificates and sometimes a competing certified block; chain slots sometimes get a sibling block (registered, sometimes notar-fallback certified); block-parent registrations for most blocks; parent-ready waiters (C07; a quarter of them abandoned at once: receiver dropped); every certificate is delivered either as a received certificate or as the votes forming it; all groups shuffled (final before notar, children before parents, gaps, certificates for already decided slots), a third of the histories additionally in adversarial orders (all skips first then old blocks from the highest slot down; strictly descending; strictly ascending)";
 
 pub fn gen_c07(seed: u64, tier: Tier) -> CaseSet {
     gen_world(seed, tier, 7, 0xC07, 500, 10000, true, false, false,
